@@ -21,6 +21,7 @@ LETTERS = {
     'p': [2, 3, 2, 0, -2, -3, -2, 0],            # phase shifted a
     'k': [1, 4, 4, 4, 1, -2, -2, -2],            # DC shifted plateau
     'v': [0, 2, 3, 1, -2, -3, -1],               # 7-sample cycle
+    'G': [v * 2 ** 17 for v in [0, 2, 3, 2, 0, -2, -3, -2]],     # a giant cycle (artefact): dynamic range of 10^5 within one recording
 }
 EXTRA_POOL = ['w', 'A', 'p', 'k', 'v']
 
